@@ -250,6 +250,12 @@ void rewrite_infinite_loops()
 
    for (Chunk *pc = Chunk::GetHead(); pc->IsNotNullChunk(); pc = pc->GetNextNcNnl())
    {
+      if (pc->TestFlags(PCF_IN_PREPROC))
+      {
+         // a loop (or a part of one) in a macro body: its other parts are not found inside the directive
+         continue;
+      }
+
       if (pc->Is(CT_DO))
       {
          Chunk *start_brace   = find_start_brace(pc);
